@@ -195,14 +195,16 @@ func (h *Hub) Run() {
 				h.connMu.Unlock()
 
 				conn.markClosed()
-				h.roomManager.RemoveConnectionFromAllRooms(conn)
-				h.metrics.DecrementConnections()
-				h.metrics.UnregisterConnection(conn.ID)
 
-				// Save connection state for reconnection
+				// Save connection state for reconnection (needs the rooms the
+				// connection was in, so before it leaves them)
 				if h.config.EnableReconnection && h.config.PreserveClientState {
 					h.saveConnectionState(conn)
 				}
+
+				conn.leaveAllRooms()
+				h.metrics.DecrementConnections()
+				h.metrics.UnregisterConnection(conn.ID)
 
 				log.Printf("[WS] Connection unregistered: %s (total: %d)", conn.ID, len(h.connections))
 
@@ -246,7 +248,7 @@ func (h *Hub) Run() {
 				default:
 					conn.markClosed()
 					delete(h.connections, conn)
-					h.roomManager.RemoveConnectionFromAllRooms(conn)
+					conn.leaveAllRooms()
 				}
 			}
 			h.connMu.Unlock()
